@@ -42,7 +42,7 @@ type c01Case struct {
 
 var c01TreeCfg = h.TreeCfg{
 	MaxEntries: 12, MaxDepth: 3, Names: []string{"a", "b", "ab", "a-b", "a.b", "c", "a0", "d", ".tmp.123456", "é", "a b", "x"},
-	Xattrs: true, XattrNS: []string{"user.", "trusted.", "security."}, Hardlinks: true, BigFiles: true, Caps: true,
+	Xattrs: true, XattrNS: []string{"user.", "trusted.", "security."}, Hardlinks: true, SpecialLinks: true, BigFiles: true, Caps: true, BigXattrs: true,
 	SymTargets: []string{"a", "b", "../a", "/a", "/nonexistent/x", "a/b", ".", "dangling", "../../../etc"}, UncleanTargets: true,
 }
 
@@ -111,6 +111,20 @@ func partitionOf(s h.Snap) [][]string {
 	for _, p := range s.Paths() {
 		e := s[p]
 		if e.Kind == h.KFile {
+			k := [2]uint64{e.Dev, e.Ino}
+			g[k] = append(g[k], p)
+		}
+	}
+	return normPartition(g)
+}
+
+// partitionOfAll: the same over regular and special files (everything but
+// directories and symlinks).
+func partitionOfAll(s h.Snap) [][]string {
+	g := map[[2]uint64][]string{}
+	for _, p := range s.Paths() {
+		e := s[p]
+		if e.Kind != h.KDir && e.Kind != h.KSymlink {
 			k := [2]uint64{e.Dev, e.Ino}
 			g[k] = append(g[k], p)
 		}
@@ -200,12 +214,23 @@ func convergenceErrs(after, before h.Snap, src *h.Tree, filter int, keepOld ...f
 		return !ok || a == nil || b.Ino != a.Ino || b.Kind != a.Kind
 	}
 	// xattrs are promised for regular files and directories the transfer created
-	errs := h.DiffSnap(after, want, h.CmpOpt{DirMtime: newInode, DirXattrs: newInode, FileXattrs: newInode})
+	// a name the transfer created for an inode that was there before (a new hard link
+	// to a kept file) must carry the source's attributes; what else the old inode
+	// carried is not judged
+	oldInode := map[[2]uint64]bool{}
+	for _, b := range before {
+		oldInode[[2]uint64{b.Dev, b.Ino}] = true
+	}
+	keptInode := func(p string) bool {
+		a := after[p]
+		return a != nil && oldInode[[2]uint64{a.Dev, a.Ino}]
+	}
+	errs := h.DiffSnap(after, want, h.CmpOpt{DirMtime: newInode, DirXattrs: newInode, FileXattrs: newInode, ExtraXattrsOK: keptInode})
 	gid := map[string]string{}
-	for p, f := range h.ExpectedGroups(src) {
+	for p, f := range h.ExpectedGroupsAll(src) {
 		gid[p] = f
 	}
-	if got, wantp := fmt.Sprint(partitionOf(after)), fmt.Sprint(expectedPartition(gid)); got != wantp {
+	if got, wantp := fmt.Sprint(partitionOfAll(after)), fmt.Sprint(expectedPartition(gid)); got != wantp {
 		errs.Addf("hard-link partition %s want %s", got, wantp)
 	}
 	for _, p := range after.Paths() {
@@ -371,15 +396,15 @@ func mergeErrs(after, before h.Snap, src, dst *h.Tree, filter int) *h.Errs {
 		}
 	}
 	gid := map[string]string{}
-	for p, f := range h.ExpectedGroups(src) {
+	for p, f := range h.ExpectedGroupsAll(src) {
 		gid[p] = "s:" + f
 	}
 	for p := range survive {
-		if b := before[p]; b.Kind == h.KFile {
+		if b := before[p]; b.Kind != h.KDir && b.Kind != h.KSymlink {
 			gid[p] = fmt.Sprintf("d:%d", b.Ino)
 		}
 	}
-	if got, wantp := fmt.Sprint(partitionOf(after)), fmt.Sprint(expectedPartition(gid)); got != wantp {
+	if got, wantp := fmt.Sprint(partitionOfAll(after)), fmt.Sprint(expectedPartition(gid)); got != wantp {
 		errs.Addf("hard-link partition %s want %s", got, wantp)
 	}
 	return &errs
@@ -393,7 +418,7 @@ func TestC01(t *testing.T) {
 		return
 	}
 	t.Run("unpriv", func(t *testing.T) {
-		h.ScaleChecks(1, 12, func() { h.RunWith(t, r, "unpriv", genC01Unpriv, c01UnprivCheck) })
+		h.ScaleChecks(1, 12, func() { h.RunWith(t, r, "unpriv", genC01UnprivForeign, c01UnprivCheck) })
 	})
 }
 
@@ -407,6 +432,7 @@ type c01UnprivCase struct {
 	DiffNone bool    `json:"diffnone"`
 	Notify   bool    `json:"notify"`
 	Capacity int     `json:"capacity"`
+	Foreign  bool    `json:"foreign,omitempty"` // a source entry is owned by another uid or gid
 }
 
 var c01UnprivCfg = h.TreeCfg{
@@ -530,6 +556,32 @@ func jailSync(raw json.RawMessage) (any, error) {
 	return out, nil
 }
 
+// genC01UnprivForeign: one case in six has a source entry that belongs to somebody
+// else (or to a group the receiver is not in). An unprivileged receiver cannot
+// reproduce that: the transfer may fail, but it must not report success.
+func genC01UnprivForeign(t *rapid.T) *c01UnprivCase {
+	c := genC01Unpriv(t)
+	if len(c.Src.Nodes) > 0 && rapid.IntRange(0, 5).Draw(t, "foreign") == 0 {
+		n := &c.Src.Nodes[rapid.IntRange(0, len(c.Src.Nodes)-1).Draw(t, "foreignnode")]
+		own := rapid.SampledFrom([][2]uint32{{0, 0}, {1234, 1000}, {1000, 1234}, {1000, 0}}).Draw(t, "foreignowner")
+		if n.Kind == h.KDir {
+			n.Perm |= 0o007 // the sender (uid 1000) must still be able to list it
+		} else if n.Kind == h.KFile {
+			n.Perm |= 0o004
+		}
+		n.Uid, n.Gid = own[0], own[1]
+		// every name of a link group shares the owner
+		for i := range c.Src.Nodes {
+			if m := &c.Src.Nodes[i]; m.LinkTo == n.Path || (n.LinkTo != "" && (m.Path == n.LinkTo || m.LinkTo == n.LinkTo)) {
+				m.Uid, m.Gid, m.Perm = n.Uid, n.Gid, n.Perm
+			}
+		}
+		c.Src.Normalize()
+		c.Foreign = true
+	}
+	return c
+}
+
 func c01UnprivCheck(env *h.Env, c *c01UnprivCase) error {
 	jail := filepath.Join(env.Scratch, "jail")
 	for _, d := range []string{"src", "dst"} {
@@ -568,6 +620,10 @@ func c01UnprivCheck(env *h.Env, c *c01UnprivCase) error {
 	if res.Stuck {
 		env.Class("stuck")
 		return nil
+	}
+	if c.Foreign {
+		env.Class("entry-owned-by-somebody-else")
+		env.NonTrivial()
 	}
 	if res.SendErr != "" || res.RecvErr != "" {
 		env.Class("rejected")
